@@ -357,7 +357,7 @@ def substrate(ck, F):
     forms = [
         ("<sim::mem::RegFile as std::ops::Index<ast::Reg>>::index", "index[arg1.0, from(arg2)]", "reg_file[r] is element usize::from(r)", "src/sim/mem.rs"),
         ("<sim::mem::RegFile as std::ops::IndexMut<ast::Reg>>::index_mut", "index[arg1.0, from(arg2)]", "reg_file[r] (mutable) is element usize::from(r)", "src/sim/mem.rs"),
-        ("ast::<impl std::convert::From<ast::Reg> for usize>::from", "from(Reg::reg_no(arg1))", "usize::from(reg) is its number", "src/ast.rs"),
+        ("ast::<impl std::convert::From<ast::Reg> for usize>::from", "(Reg::reg_no(arg1) as usize)", "usize::from(reg) is its number", "src/ast.rs"),
         ("ast::Reg::reg_no", "(discr(arg1) as u8)", "a register's number is its variant index (R0..R7 in order, C05.3)", "src/ast.rs"),
         ("<sim::mem::MemArray as std::ops::Index<u16>>::index", "index[(arg1.0.0.pointer as *const [sim::mem::Word; 65536]), (arg2 as usize)]", "mem[addr] is element addr of the 65536-word array", "src/sim/mem.rs"),
         ("sim::mem::Word::get", "arg1.data", "Word::get returns the data", "src/sim/mem.rs"),
